@@ -12,7 +12,7 @@ from ..loader import AnalysisError
 from .valeq import check_typed_identity, check_json_bytes, check_enum_distinct
 from .c16 import sibling_reference_sites
 from .ladders import (extract_ladder, check_ladder_order, repo_subclass_pairs, handler_ladder, dispatch_model, _bound_value, _literal_seq,
-                      table_entries, _Unsupported, subst, sequence_elements, resolve_callee, handler_type_names)
+                      table_entries, _Unsupported, subst, sequence_elements, resolve_callee, handler_type_names, comprehension_elements)
 from . import partition_model as PM
 
 RL = "runner_local.memento_run_local"
@@ -124,6 +124,23 @@ class Sym:
                     and all(isinstance(a_, ast.Constant) for a_ in list(v_.args) + [k_.value for k_ in v_.keywords]) \
                     and all(k_.arg for k_ in v_.keywords) and not fa.df.is_local(nm_):
                 self.consts[nm_] = v_
+        # `with contextlib.suppress(...)`: a statement of the body that can raise may also continue after the with statement,
+        # with the store as it was before that statement (the graph has no such edge); the path is marked
+        self.suppress = {}
+        for w_ in A.all_stmts(fa.node):
+            if isinstance(w_, (ast.With, ast.AsyncWith)) and any(isinstance(i_.context_expr, ast.Call) and A.call_attr(i_.context_expr) == "suppress" for i_ in w_.items):
+                inside = set()
+                for st_ in w_.body:
+                    for x_ in [st_] + [y_ for y_ in ast.walk(st_) if isinstance(y_, ast.stmt)]:
+                        inside |= set(fa.nodes(x_))
+                cont = {d_ for n_ in inside for (d_, l_) in self.cfg.succ[n_] if d_ not in inside and l_ != "exc" and d_ != self.cfg.exit
+                        and self.cfg.node(d_).ast is not None and not isinstance(self.cfg.node(n_).ast, (ast.Return, ast.Raise))}
+                for n_ in inside:
+                    self.suppress.setdefault(n_, []).append((w_, sorted(cont)))
+        # module-level sentinels (`_MISS = object()`): identical to nothing but themselves
+        self.sentinels = {nm_ for nm_, v_ in (getattr(fa.fi.module, "assigns", {}) or {}).items()
+                          if isinstance(v_, ast.Call) and isinstance(v_.func, ast.Name) and v_.func.id == "object" and not v_.args and not v_.keywords
+                          and not fa.df.is_local(nm_)}
         self._explore()
 
     # ---- expressions ---------------------------------------------------------------------------
@@ -191,6 +208,8 @@ class Sym:
             if isinstance(x, ast.Lambda):
                 bound |= {a.arg for a in x.args.args + x.args.kwonlyargs + x.args.posonlyargs}
         sym = self
+        if any(isinstance(x, ast.NamedExpr) for x in ast.walk(expr)):
+            env = dict(env)   # `(x := e)` binds x for the rest of the expression (operands are visited left to right)
 
         class T(ast.NodeTransformer):
             def visit_Name(self, n):
@@ -221,7 +240,10 @@ class Sym:
                 return sym.simplify(n)
 
             def visit_NamedExpr(self, n):
-                return self.visit(n.value)  # `(x := e)` has the value of e
+                v = self.visit(n.value)  # `(x := e)` has the value of e
+                if isinstance(n.target, ast.Name):
+                    env[n.target.id] = sym._fit(A.norm(v), n, n.target.id)
+                return v
 
         return T().visit(copy.deepcopy(expr))
 
@@ -262,6 +284,12 @@ class Sym:
                     same = (l.value is r.value) if isinstance(op, (ast.Is, ast.IsNot)) else (l.value == r.value and type(l.value) is type(r.value))
                 elif _is_pure_dotted(l) and _is_pure_dotted(r) and A.norm(l) == A.norm(r) and not self.fa.df.is_local(A.norm(l).split(".")[0]):
                     same = True
+                elif isinstance(op, (ast.Is, ast.IsNot)) and any(isinstance(x_, ast.Name) and x_.id in self.sentinels for x_ in (l, r)):
+                    # a value in which the sentinel does not occur is not the sentinel
+                    for (a_, b_) in ((l, r), (r, l)):
+                        if isinstance(b_, ast.Name) and b_.id in self.sentinels and b_.id not in A.names_in(a_) \
+                                and not any(t_.startswith("_") and not t_.startswith("_exc") for t_ in A.names_in(a_) if t_ in self._tok.values()):
+                            same = False
                 elif isinstance(op, (ast.Is, ast.IsNot)):
                     # a caught exception object is not None
                     for (a_, b_) in ((l, r), (r, l)):
@@ -409,13 +437,25 @@ class Sym:
                 self._bind(env, a.name, self.token("exc", a), a)
         # walrus
         if nd.kind in ("stmt", "test"):
-            for sub_ in A.walk_local(a):
-                if isinstance(sub_, ast.NamedExpr) and isinstance(sub_.target, ast.Name):
-                    self._bind(env, sub_.target.id, self.text(sub_.value, env_in), a)
+            named = sorted((x for x in A.walk_local(a) if isinstance(x, ast.NamedExpr) and isinstance(x.target, ast.Name)),
+                           key=lambda x: (getattr(x, "lineno", 0), getattr(x, "col_offset", 0)))
+            if named:
+                seen_ = dict(env_in)   # a later `:=` of the same expression sees the earlier ones
+                for sub_ in named:
+                    v_ = self.text(sub_.value, seen_)
+                    self._bind(env, sub_.target.id, v_, a)
+                    seen_[sub_.target.id] = env[sub_.target.id]
         return env
 
     def exc_token(self, handler):
         return self.token("exc", handler)
+
+    def suppress_mark(self, with_stmt):
+        return ("@suppress:%s" % self.token("sup", with_stmt), True)
+
+    def suppress_continues(self, with_stmt):
+        """Does the graph know where control continues after this `with suppress(...)`?"""
+        return any(c_ for lst in self.suppress.values() for (w_, c_) in lst if w_ is with_stmt)
 
     def handler_mark(self, handler):
         return ("@except:%s" % self.token("exc", handler), True)
@@ -445,6 +485,13 @@ class Sym:
                 verdict = self.truth(t)
                 if is_test:
                     d_t, d_f = dnf(t, True), dnf(t, False)
+            if n in self.suppress and nd.ast is not None and any(isinstance(x_, (ast.Call, ast.Subscript)) for x_ in A.walk_local(nd.ast)):
+                for (w_, cont_) in self.suppress[n]:
+                    for d_ in cont_:
+                        nxt = (d_, envk, lits | {self.suppress_mark(w_)})
+                        if nxt not in seen:
+                            seen.add(nxt)
+                            work.append(nxt)
             for (d, l) in cfg.succ[n]:
                 nl = lits
                 if l == "exc":
@@ -641,6 +688,16 @@ def possible_values(fa, expr, at, _depth=0):
         return possible_values(fa, expr.body, at, _depth + 1) + possible_values(fa, expr.orelse, at, _depth + 1)
     if isinstance(expr, ast.BoolOp):
         return [v for x in expr.values for v in possible_values(fa, x, at, _depth + 1)]
+    if isinstance(expr, ast.Call) and isinstance(expr.func, ast.Name) and expr.func.id == "next" and 1 <= len(expr.args) <= 2 \
+            and isinstance(expr.args[0], ast.GeneratorExp):
+        # the first element a filter lets through: any of them, or the default
+        bs = comprehension_elements(fa, expr.args[0].generators, at, possible=True)
+        if bs is not None:
+            out = [v for b in bs for v in possible_values(fa, subst(expr.args[0].elt, b), at, _depth + 1)]
+            if len(expr.args) == 2 and not A.is_none(expr.args[1]):
+                out += possible_values(fa, expr.args[1], at, _depth + 1)
+            if out:
+                return out
     if isinstance(expr, ast.Call) and _depth <= 3 and isinstance(expr.func, ast.Name) and fa.df.is_local(expr.func.id):
         # a function picked from a table and then called: what any of the functions it can stand for returns
         out = []
@@ -962,7 +1019,10 @@ def check_run_record_replay(ck, R):
     mem = rl.some([c for c in rl.calls("memoize") if A.call_recv(c) is not None and rl.xnorm(A.call_recv(c)) in {rl.xnorm(A.call_recv(c2)) for c2 in lookup_calls if A.call_recv(c2) is not None} | recv],
                   "memoize call")
     mn = rl.nodes_all(mem)
-    tr = [t for t in rl.stmts(ast.Try) if any(rl.inside(body, b) for b in t.body) and t.handlers][0]
+    trs = [t for t in rl.stmts(ast.Try) if any(rl.inside(body, b) for b in t.body) and t.handlers]
+    ck.need(trs, "memento_run_local: no try statement with handlers around the body call (is the exception policy in a context manager's __exit__?)")
+    tr = trs[0]
+
     def caught(h):
         return handler_type_names(h, rl.fi.module.assigns)
 
@@ -1277,7 +1337,14 @@ def check_replay(ck, R):
             if isinstance(p, (ast.With, ast.AsyncWith)) and any(tx.inside(c, b) for b in p.body):
                 sts_ = suppressed_types(p)
                 if (set(sts_) & (set(exc_names) | {"BaseException"})) or ("ImportError" in sts_ and "ModuleNotFoundError" in exc_names):
-                    if returns_self_after(p):
+                    if TS.suppress_continues(p):
+                        # every way the function can end after the failure was suppressed returns self
+                        mk = TS.suppress_mark(p)
+                        vals = [v for (_r, _env, lits, v) in TS.return_states() if mk in lits]
+                        leaks = any(mk in lits for x in A.walk_body(tx.node) if isinstance(x, ast.Raise) for (_e, lits) in TS.at(x)) or \
+                            any(mk in lits for s_ in falls_off for (_e, lits) in TS.states.get(s_, []))
+                        covered = bool(vals) and all(v == "self" for v in vals) and not leaks
+                    elif returns_self_after(p):
                         covered = True
                     break
             if isinstance(p, ast.Try) and any(tx.inside(c, b) for b in p.body):
